@@ -22,7 +22,7 @@ ANCHORS = ["decaylanguage.decay.viewer:DecayChainViewer._build_decay_graph", "de
 WORKERS = {"quick": 4, "thorough": 16}
 REQUIRED = {"line-without-daughters": 5, "branching-fraction-zero": 10, "table>=4-lines-distinct-bf": 20, "leaf-line-daughters-unsorted": 20, "repeated-decaying-daughter": 10, "empty-table-daughter": 10,
             "from-class-representation": 10, "evtgen-specific-name": 20, "alias-or-unknown-name": 20, "depth>=3": 10, "daughters>=5-in-ported-node": 5,
-            "graphs-in-one-process>=3": 1, "same-lists-in-both-node-roles": 10, "two-lines-same-daughters-same-bf": 5, "dot-accepted": 50, "graph-made-in-a-worker-thread": 10, "evtgen-specific-spelling-drawn": 20, "branching-fraction-with>12-significant-digits": 20}
+            "graphs-in-one-process>=3": 1, "same-lists-in-both-node-roles": 10, "two-lines-same-daughters-same-bf": 5, "dot-accepted": 50, "graph-made-in-a-worker-thread": 10, "viewer-with-name-and-format-options": 10, "line-with>10-daughters": 5, "evtgen-specific-spelling-drawn": 20, "branching-fraction-with>12-significant-digits": 20}
 ASSUMPTIONS = ["Graphviz `dot` and the particle package's LaTeX->HTML name conversion are trusted", "labels contain no '<' or '&' (label alphabet)",
                "the root identifier 'mother' is per graph; uniqueness across graphs is required of the per-line nodes"]
 
@@ -115,6 +115,10 @@ def check(ctx, chain, workload, wit_extra=None):
     wit = {"kind": "graph", "chain": chain, **(wit_extra or {})}
     ctx.case(chain, nlines >= 2, workload)
     def make():
+        if _ngraphs[0] % 5 == 1:
+            # constructor options of the README (`name=`, `format=`) and graph attributes: the identifiers stay unique all the same
+            ctx.hit("viewer-with-name-and-format-options")
+            return DecayChainViewer(chain, name=("TEST", "OtherGraph")[_ngraphs[0] % 2], format="pdf").to_string()
         if _ngraphs[0] % 4 != 3:
             return DecayChainViewer(chain).to_string()
         # every fourth graph of the session is made in a worker thread (joined at once: no concurrency, only another thread of the same process)
@@ -263,6 +267,14 @@ def run(ctx):
                             if nm not in T and nm not in parts:      # a plain leaf: no table of its own (the table set stays acyclic)
                                 ln["fs"].append(nm)
                                 ctx.hit("evtgen-specific-spelling-drawn")
+        if i % 6 == 3:
+            # very long final states (11 .. 25 daughters in one line, more than any shipped line has)
+            for st in stmts:
+                if st["k"] == "Decay" and st["lines"] and r.random() < 0.5:
+                    ln = r.choice(st["lines"])
+                    leafs = [x for x in ["gamma", "pi0", "pi+", "pi-", "K+", "e-", "nu_e", "Xlong1", "Xlong2"] if x not in T and x not in parts]    # plain leaves only: the set stays acyclic
+                    ln["fs"] = ln["fs"] + [r.choice(leafs) for _ in range(r.randint(11, 25))]
+                    ctx.hit("line-with>10-daughters")
         if i % 4 == 1:
             for st in stmts:
                 if st["k"] == "Decay" and st["lines"] and r.random() < 0.5:
